@@ -162,6 +162,7 @@ fn typst_piece() -> BoxedStrategy<String> {
         1 => paragraph().prop_map(|p| format!("#for x in (1, 2) [{p}]")),
         1 => paragraph().prop_map(|p| format!("#let f(x) = [{p} #x]")),
         1 => paragraph().prop_map(|p| format!("#show heading: it => [{p}]")),
+        1 => sel_str(&["#show \"the\": \"the \"", "#set text(\"the\") if \"the \"", "#show \"teh\": it => [the #it]", "#show regex(\"the\"): \"the the\"", "#set par(justify: true) if \"an apple\" == \"a apple\"", "#show: doc => [the #doc the]", "#let f(x, y: \"the\") = [the #y the]"]),
         1 => paragraph().prop_map(|p| format!("#set text(lang: \"{p}\")")),
         1 => paragraph().prop_map(|p| format!("#(a: \"{p}\", b: [{p}]).a")),
         1 => sel_str(&["#x.y", "#x.", "#x.y.z()", "#(", "#[", "#{", "#", "#x(", "#x[", "@ref", "<label>", "#import \"a.typ\": b", "#include \"teh.typ\"", "\\", "\\u{1F600}", "~", "---", "#1.5em", "#true", "#none", "#x.at(0)", "#(1 + 2)", "#{ let y = 1; y }", "#context [ teh ]", "#a.b.c[teh wrold]"]),
